@@ -83,7 +83,7 @@ def run_case(case):
         C = zoo.gen_context(b, ctxk, n, case["seed"]) if ctxk is not None else None
         target = case["target"]
         flat = len(b.out_shape) == 1
-        if target == "log_prob" and not flat:
+        if target == "log_prob" and (not flat or len(b.in_shape) != 1):
             target = "forward"
         if target == "inverse" and (not b.invertible or b.inv_via_forward):
             target = "forward"
@@ -167,7 +167,7 @@ def run_case(case):
         # ---- directional finite differences
         tolrel = 5e-2 if b.umnn else 2e-5
         if _has(case["spec"], ("c_cub", "ar_cub", "cdf_cub", "fn_cub")) and (target == "inverse" or _has(case["spec"], ("inverse",))):
-            tolrel = 2e-3   # cubic inverse: cancellation in the root formulas (-d1 + sqrt(d1^2 + small)) limits autograd's accuracy
+            tolrel = 2e-4   # cubic inverse: autograd differentiates the closed-form root (with its cancellation) plus two Newton steps
 
         def fd(apply, h):
             with torch.no_grad():
